@@ -17,7 +17,7 @@ AST (tuples):
   ('struct', path_segs, [(field, e)])
   ('return', e_or_None)   ('tuple', [e])   ('index', e, i)   ('try', e)   ('range', lo, hi)
   ('for', pat, iter, block)   ('assign', op, l, r)
-statements:  ('let', pat, ty_text_or_None, init_or_None)   ('expr', e, has_semi)
+statements:  ('let', pat, ty_text_or_None, init_or_None)   ('expr', e, has_semi)   ('attr', [[attribute token texts]], stmt)
 patterns:    ('pid', name)  ('pwild',)  ('pref', pat)  ('pts', path_segs, [pat])  ('ppath', segs)
              ('ptuple', [pat])  ('plit', text)
 Anything outside the subset raises ParseError (the translator reports it as untranslatable)."""
@@ -167,6 +167,15 @@ class P:
         self.eat_p("{")
         stmts = []
         tail = None
+        pending = []
+
+        def push(st):
+            # ('attr', [token texts of each attribute], statement)
+            if pending:
+                stmts.append(("attr", list(pending), st))
+                del pending[:]
+            else:
+                stmts.append(st)
         while not self.at_p("}"):
             if self.done():
                 raise ParseError("unclosed block")
@@ -174,7 +183,11 @@ class P:
                 self.i += 1
                 continue
             if self.at_p("#") and (self.at_p("[", 1)):
-                raise ParseError(f"attribute inside a block at line {self.peek().line}")
+                # an attribute on a statement (`#[cfg(...)] let x = ...;`): kept with the statement
+                close = matching(self.t, self.i + 1)
+                pending.append([t.text for t in self.t[self.i + 2:close]])
+                self.i = close + 1
+                continue
             if self.at_id("let"):
                 self.i += 1
                 pat = self.pattern()
@@ -187,7 +200,7 @@ class P:
                     self.i += 1
                     init = self.expr()
                 self.eat_p(";")
-                stmts.append(("let", pat, ty, init))
+                push(("let", pat, ty, init))
                 continue
             if self.at_id("if") or self.at_id("match") or self.at_id("for") or self.at_p("{"):
                 # a block-like expression at statement position ends the statement
@@ -198,11 +211,13 @@ class P:
                 e = self.expr(stmt=True)
             if self.at_p(";"):
                 self.i += 1
-                stmts.append(("expr", e, True))
+                push(("expr", e, True))
             elif self.at_p("}"):
+                if pending:
+                    raise ParseError("attribute on the value of a block")
                 tail = e
             elif e[0] in ("if", "match", "block", "for"):
-                stmts.append(("expr", e, False))
+                push(("expr", e, False))
             else:
                 t = self.peek()
                 raise ParseError(f"`;` or `}}` expected at line {t.line}, found {t.text}")
